@@ -298,6 +298,12 @@ pub fn exec(op: &str, a: &[u64]) -> Result<Outcome, String> {
             let mut o = Outcome::new("accept".to_string());
             o.check(item.verif_target() == s, "target was modified");
             o.check(item2.verif_input() == out, "not a deterministic function of (text, seed)");
+            // the same (text, seed) as an item of another file of the data set
+            for file_idx in [1usize, 2 + (seed % 5) as usize] {
+                let info = TextDataInfo { seed, file_idx, marks: Default::default() };
+                let (item3, _) = f(TrainData::new(s.clone(), None), info).map_err(|e| e.to_string())?;
+                o.check(item3.verif_input() == out, "not a deterministic function of (text, seed): the output depends on which file the item comes from");
+            }
             o.check(recorded == out, "not a deterministic function of (text, seed): differs from the output of the generating run");
             let nonws = |x: &str| clusters(x, g).into_iter().filter(|c| !c.iter().all(|&u| char::from_u32(u as u32).unwrap().is_whitespace())).collect::<Vec<_>>();
             if gen::is_clean_str(&s) && unmixed(&s, g) && g && (nonws(&out) != nonws(&s) || !unmixed(&out, g)) {
